@@ -114,43 +114,50 @@ fn check_tc(case: &TcCase) -> V {
         }
     }
 
-    // (b) the create / --convert path: MarkdownTestCaseGenerator output parsed back
-    let effective = original.with_defaults_from(&TestCaseConfig::default_markdown());
-    let outcome = Outcome {
-        location: None,
-        output: ("", "", Some(0)).into(),
-        testcase: TestCase {
-            title: "a title".into(),
-            shell_expression: "true".into(),
-            expectations: vec![],
-            exit_code: None,
-            line_number: 1,
-            config: effective.clone(),
-        },
-        format: ParserType::Markdown,
-        escaping: Escaper::Unicode,
-        result: Ok(()),
-    };
-    let generated = match guard(|| MarkdownTestCaseGenerator::default().generate_testcases(&[&outcome])) {
-        Ok(Ok(g)) => g,
-        Ok(Err(e)) => return V::fail(format!("generate_testcases failed: {e:#}")),
-        Err(p) => return V::fail(format!("generate_testcases crashed: {p}")),
-    };
-    match guard(|| parser(None).parse(&generated)) {
-        Err(p) => return V::fail(format!("parser crashed on generated document {generated:?}: {p}")),
-        Ok(Err(e)) => {
-            return classify_one_liner(c, format!("generated document {generated:?} does not parse: {e:#}"))
-        }
-        Ok(Ok((_, tests))) => {
-            if tests.len() != 1 || tests[0].config != effective {
-                return classify_one_liner(
-                    c,
-                    format!(
-                        "generated document {generated:?} reads back with config {} instead of {}",
-                        tests.first().map(|t| t.config.to_string()).unwrap_or_default(),
-                        effective
-                    ),
-                );
+    // (b) the create / --convert path: MarkdownTestCaseGenerator output parsed back; the test
+    // case comes from a Markdown document (create, update) or from a Cram document
+    // (`update --convert markdown`), whose format defaults differ from the reader's
+    for (format, defaults) in [
+        (ParserType::Markdown, TestCaseConfig::default_markdown()),
+        (ParserType::Cram, TestCaseConfig::default_cram()),
+    ] {
+        let effective = original.with_defaults_from(&defaults);
+        let outcome = Outcome {
+            location: None,
+            output: ("", "", Some(0)).into(),
+            testcase: TestCase {
+                title: "a title".into(),
+                shell_expression: "true".into(),
+                expectations: vec![],
+                exit_code: None,
+                line_number: 1,
+                config: effective.clone(),
+            },
+            format,
+            escaping: Escaper::Unicode,
+            result: Ok(()),
+        };
+        let generated = match guard(|| MarkdownTestCaseGenerator::default().generate_testcases(&[&outcome])) {
+            Ok(Ok(g)) => g,
+            Ok(Err(e)) => return V::fail(format!("generate_testcases failed: {e:#}")),
+            Err(p) => return V::fail(format!("generate_testcases crashed: {p}")),
+        };
+        match guard(|| parser(None).parse(&generated)) {
+            Err(p) => return V::fail(format!("parser crashed on generated document {generated:?}: {p}")),
+            Ok(Err(e)) => {
+                return classify_one_liner(c, format!("generated document {generated:?} does not parse: {e:#}"))
+            }
+            Ok(Ok((_, tests))) => {
+                if tests.len() != 1 || tests[0].config != effective {
+                    return classify_one_liner(
+                        c,
+                        format!(
+                            "document generated from a {format} test case, {generated:?}, reads back with config {} instead of {}",
+                            tests.first().map(|t| t.config.to_string()).unwrap_or_default(),
+                            effective
+                        ),
+                    );
+                }
             }
         }
     }
